@@ -680,7 +680,7 @@ func runHostile(c *mon.Case) {
 func Spec() *mon.Spec {
 	return &mon.Spec{
 		ID: "C38", Level: "exploration",
-		Rule: "case = option spec set (0..6 options: short-only, long-only, both; all arities; rare duplicates) under one of the 8 configurations and 12 argument lists of 0..8 words (short clusters, attached/detached arguments incl. values that look like options, long options with = and detached values, single-dash long options under LongOnly, unknown options, '-', '--', '--=x', plain and empty words); Parse and Complete are compared with a reference parser written from the getopt_long conventions (options with spec identity, Long flag, Argument, Unknown; non-option arguments; error presence; completion context); Complete is also compared directly with Parse of all but the last word. Phase elvish does the same through flag:parse-getopt in the interpreter. Non-trivial = argument list with at least one parsed option and a non-option argument or a pending argument.",
+		Rule: "case = option spec set (0..6 options: short-only, long-only, both; all arities; rare duplicates) under one of the 8 configurations and 12 argument lists of 0..8 words (short clusters, attached/detached arguments incl. values that look like options, long options with = and detached values, single-dash long options under LongOnly, unknown options, '-', '--', '--=x', plain and empty words); Parse and Complete are compared with a reference parser written from the getopt_long conventions (options with spec identity, Long flag, Argument, Unknown; non-option arguments; error presence; completion context); Complete is also compared directly with Parse of all but the last word. Phase elvish does the same through flag:parse-getopt in the interpreter, phase edit-complete checks which callback / candidates edit:complete-getopt produces. Non-trivial = argument list with at least one parsed option and a non-option argument or a pending argument.",
 		Assumptions: []string{
 			"--name=value for a long option that takes no argument is not checked (GNU: error; conventions differ)",
 			"abbreviated long options are not generated (unknown names are never a prefix of a spec's long name)",
@@ -689,13 +689,15 @@ func Spec() *mon.Spec {
 			"the completion context of a final '--' is not checked (terminator or start of a long option: docs silent)",
 			"degenerate specs (empty long name together with no short rune, '-' or NUL as short rune, '=' in long names) are not generated; with duplicate names the first spec wins",
 			"words with invalid UTF-8 or NUL: only totality (no panic) and conservation of non-option words are checked",
+			"edit:complete-getopt (GNU configuration): the completer of the pending option / the handler of the n-th non-option argument is called with the partial text; for a last word starting with a dash the candidates are all options (\"-\"), the long options whose name starts with the partial name, or all short options (chain), in spec order (.d.elv: 'Matching options will be provided as completions when the last element of $args starts with a dash')",
 		},
 		Phases: []mon.Phase{
 			{Name: "parse", Quick: 24000, Thorough: 600000, Run: runParse},
 			{Name: "elvish", Quick: 6000, Thorough: 60000, Run: runElvish},
 			{Name: "hostile", Quick: 4000, Thorough: 40000, Run: runHostile},
+			{Name: "edit-complete", Quick: 6000, Thorough: 60000, Run: runEditComplete},
 		},
-		ChildSetup: func(e *mon.Env) { evaler = elv.New() },
+		ChildSetup: func(e *mon.Env) { evaler = elv.New(); installEdit(evaler) },
 		Floors: map[string]int{"distinct_nontrivial": 20000, "known_long": 30000, "known_short": 25000, "unknown_long": 30000, "unknown_short": 5000,
 			"option_with_argument": 20000, "argument_looks_like_option": 10000, "missing_argument": 1500, "option_after_non_option": 12000,
 			"short_chain": 2000, "short_chain_ending_in_argument_option": 500, "short_required_attached": 1000, "short_required_detached": 1000,
@@ -703,6 +705,8 @@ func Spec() *mon.Spec {
 			"long_optional_eq_value": 2000, "long_optional_bare": 2000, "double_dash_terminator": 5000, "double_dash_as_plain_word": 5000,
 			"stopped_at_first_non_option": 5000, "long_only_single_dash_known": 2000, "single_dash_word": 3000,
 			"ctx_AnyOption": 2000, "ctx_Argument": 30000, "ctx_ChainShortOption": 1200, "ctx_LongOption": 10000, "ctx_OptionArgument": 9000, "ctx_OptionOrArgument": 500,
-			"elvish_ok_cases": 800, "elvish_error_cases": 700, "hostile_cases": 800},
+			"elvish_ok_cases": 800, "elvish_error_cases": 700, "hostile_cases": 800,
+			"edit_calls": 1500, "edit_ctx_AnyOption": 100, "edit_ctx_Argument": 700, "edit_ctx_ChainShortOption": 60, "edit_ctx_LongOption": 250,
+			"edit_ctx_OptionArgument": 250, "edit_ctx_OptionOrArgument": 80, "edit_nonempty_result": 800},
 	}
 }
